@@ -44,8 +44,20 @@ func runHarness(w *World, verif, tier string, seed int, h harnessSpec) boundedRe
 			}
 		}
 	}
+	// the harness sources belong to the checker, not to the output directory
+	hroot := filepath.Join(verif, "harness")
+	if _, err := os.Stat(filepath.Join(hroot, h.dir)); err != nil {
+		if exe, err := os.Executable(); err == nil {
+			hroot = filepath.Join(filepath.Dir(filepath.Dir(exe)), "harness")
+		}
+	}
 	for _, f := range h.files {
-		ov["Replace"][filepath.Join(pkgDir, "zz_verif_"+f)] = filepath.Join(verif, "harness", h.dir, f)
+		src := filepath.Join(hroot, h.dir, f)
+		if _, err := os.Stat(src); err != nil {
+			res.Detail = "harness source missing: " + src
+			return res
+		}
+		ov["Replace"][filepath.Join(pkgDir, "zz_verif_"+f)] = src
 	}
 	data, _ := json.Marshal(ov)
 	ovFile := filepath.Join(tmp, "ov.json")
@@ -99,6 +111,15 @@ func init() {
 		}), runHarness(w, verif, tier, seed, harnessSpec{
 			name: "glf-difference-any", pkg: "shovel/glf", pkgName: "glf", dir: "glf", files: []string{"glf_bounded_test.go"}, run: "TestVerifGLFBounded",
 			bound: "real glf.difference and glf.any vs set semantics for all slices of length <= 3 over a 3-letter alphabet (40 slices; difference with two 'others' arguments, the second from the first 14 slices)",
+		})}
+	})
+	boundedChecks["C16"] = append(boundedChecks["C16"], func(w *World, tier string, seed int, verif string) []boundedResult {
+		return []boundedResult{runHarness(w, verif, tier, seed, harnessSpec{
+			name: "schema-fits-rows", pkg: "shovel/config", pkgName: "config", dir: "schema", files: []string{"schema_bounded_test.go"}, run: "TestVerifSchemaBounded",
+			bound: "6 integration shapes (flat log selecting data / an indexed input, uint256[] data, tuple[] with columns inside the components, tx fields, trace fields) x 5 variants (column order, user-supplied identity columns, extra column), every ordered pair sharing one table and on separate tables, through the real ValidateFix + DDL + Migrate (fresh and pre-existing narrower table, in-memory catalogue) + dig.New + Integration.Insert on hand-built blocks (2 blocks x 2 txs x 2 logs / 2 trace actions, identical payloads): written columns exist, unique-key columns exist, rows pairwise distinct on the key, re-insert yields the same keys; 5 configurations that must be rejected",
+		}), runHarness(w, verif, tier, seed, harnessSpec{
+			name: "selected-vs-spec", pkg: "dig", pkgName: "dig", dir: "sel", files: []string{"sel_bounded_test.go"}, run: "TestVerifSelectedBounded",
+			bound: "real Input.Selected / Event.Selected vs an independent specification for all input trees of depth <= 2 with <= 2 components per node, every selection/indexed pattern (second component thinned to a third at the top level), and a thinned set of two-input events",
 		})}
 	})
 	boundedChecks["C09"] = append(boundedChecks["C09"], func(w *World, tier string, seed int, verif string) []boundedResult {
